@@ -55,6 +55,59 @@ def known_class(root):
     return None
 
 
+COLLISION = 'cse-print-pass-binding-site-id-depth-collision'
+
+
+def collision_candidate(root):
+    """Structural part of the class COLLISION: some node s is the direct child of a new-block position (If branch,
+    StreamAgg / StreamAggScan body), occurs at least once more elsewhere, and contains internal sharing (a node or a
+    pooled constant referenced twice inside s), so that s is registered as a binding site for one occurrence while
+    another occurrence of the same object may itself be lifted."""
+    occ = {}
+    blockchild = set()
+
+    def walk(n):
+        if not isinstance(n, S.Node):
+            return
+        occ[id(n)] = occ.get(id(n), 0) + 1
+        if occ[id(n)] > 1:
+            return
+        for i, o in enumerate(n.ops):
+            if isinstance(o, S.Node) and ((n.kind in ('IF', 'IFL') and i in (1, 2)) or (
+                    n.kind in ('SAGG', 'SSCAN') and i == 1)):
+                blockchild.add(id(o))
+            walk(o)
+    walk(root)
+    # count every occurrence (tree walk) for the "occurs elsewhere" test
+    total = {}
+
+    def count(n):
+        if isinstance(n, S.Node):
+            total[id(n)] = total.get(id(n), 0) + 1
+            for o in n.ops:
+                count(o)
+    count(root)
+    nodes = {id(n): n for n in S.nodes_of(root)}
+    for k in blockchild:
+        if total.get(k, 0) < 2:
+            continue
+        inner = {}
+
+        def cnt(n):
+            key = ('leaf', n.name) if isinstance(n, S.Leaf) and not isinstance(n, S.Var) else id(n)
+            if isinstance(n, S.Var) or (isinstance(n, S.Leaf) and n.name not in ('c', 'd')):
+                return
+            inner[key] = inner.get(key, 0) + 1
+            if isinstance(n, S.Node):
+                for o in n.ops:
+                    cnt(o)
+        for o in nodes[k].ops:
+            cnt(o)
+        if any(v > 1 for v in inner.values()):
+            return True
+    return False
+
+
 def eval_names(n):
     """Names (bound variables and free leaves, not constants) referenced in eval position inside `n`."""
     if isinstance(n, S.Var):
@@ -232,6 +285,8 @@ def run_shard(family, n, shadow, pins, batch=300, timeout_ms=120000, max_cex=12)
         r['choices'] = list(seq)
         r['shape'] = repr(root)
         r['cls'] = known_class(root)
+        if r['cls'] is None and r['kind'] == 'crash' and 'AssertionError' in r['why'] and collision_candidate(root):
+            r['cls'] = COLLISION
         stats['paths'] += 1
         stats['with_lets'] += 1 if r['lets'] else 0
         stats['with_agg_lets'] += 1 if re.search(r'AggLet __cse_\d+ False', r['cse']) else 0
